@@ -264,8 +264,9 @@ def main(prop, check_module, cases, tier, seed, describe, symbolic=True, deadlin
         wall_s=round(wall, 3),
         violations=len(violations),
     )
-    os.makedirs(os.path.join(VERIF, "evidence"), exist_ok=True)
-    with open(os.path.join(VERIF, "evidence", prop + ".json"), "w") as f:
+    evdir = os.environ.get("VERIF_EVIDENCE_DIR", os.path.join(VERIF, "evidence"))
+    os.makedirs(evdir, exist_ok=True)
+    with open(os.path.join(evdir, prop + ".json"), "w") as f:
         json.dump(ev, f, indent=1, default=str)
     print(
         "%s %s: cases=%d paths=%d queries unsat=%d sat=%d unknown=%d boundary=%d solver=%.1fs wall=%.1fs"
